@@ -274,6 +274,11 @@ def expected2 (rows : Rows) (argv : List String) : Option String :=
       | none => some bad
       | some is => some (ok ((rows.zipIdx.filter fun (_, i) => is.contains i != rev).map Prod.fst))
     else some (ok (rows.filter fun r => given.contains r.1 != rev))
+  | ["stats", "alphabet"] =>
+    -- the alphabet the reader detected (`AutoAlphabet`), of the first alignment
+    if rows.isEmpty then none else
+    let a := autoAlphabet (rows.map Prod.snd)
+    some ("rc=0 out=" ++ (if a == NUCLEOTIDS then "nucleotide" else if a == AMINOACIDS then "protein" else "unknown") ++ "|")
   | ["stats", "gaps", "--from-start"] =>
     some ("rc=0 out=" ++ String.join (rows.map fun r => r.1 ++ " " ++ toString (numGapsFromStart r.2) ++ "|"))
   | ["stats", "gaps", "--from-end"] =>
@@ -390,10 +395,90 @@ def entropyVerdict (rows : Rows) (fl : List String) (impl : String) : Option Ans
         match l.splitOn " " with | ["0", jj, v] => jj == toString j && close v e | _ => false
     some ⟨if okk then impl else "per-site " ++ toString es, verdictOf okk "site-entropy-differs-from-library-model"⟩
 
+/-! ### `stats char`, `stats alleles`, `stats alphabet` (cmd/char.go, cmd/stats.go, cmd/alleles.go, cmd/stats_alphabet.go) -/
+
+def charOf (c : Byte) : String := stringOfBytes [c]
+
+def failCli : String := "command-line-differs-from-library-model"
+
+/-- `stats char [--per-sites] [--per-sequences] [--only c]`.
+* default: `char nb freq`, one line per upper-cased character (`CharStats`, sorted), the frequency printed with `%f`
+  (compared with a tolerance of 1e-6, the integer columns exactly);
+* `--per-sequences`: `seq` and the same characters, one line per row with its `CharStatsSeq` counts;
+* `--per-sites` (priority): `site` and the characters of the count profile as they are written (not upper-cased),
+  in order of first appearance, one line per site;
+* `--only c`: that column / line only, with 0 when the character does not occur. -/
+def charStatsVerdict (rows : Rows) (fl : List String) (impl : String) : Option Ans := do
+  let only := (opt fl "--only").getD (← effective "charCmd" "only")
+  if !(fl.all fun a => a == "--per-sites" || a == "--per-sequences" || a == "--only" || a == only) then none
+  let L := lenOf rows
+  if L < 0 then none
+  let all := only == "*"
+  let oc : Byte ← if all then some 0 else match bytesOfString only with | [c] => if c < 128 then some c else none | _ => none
+  let exact (m : String) : Ans := ⟨m, verdictOf (impl == m) failCli⟩
+  if flag fl "--per-sites" then
+    let prof ← countProfile rows L
+    let cols := if all then prof else
+      match prof.find? (·.1 == oc) with
+      | some q => [q]
+      | none => [(oc, List.replicate L.toNat 0)]
+    some (exact ("rc=0 out=site" ++ String.join (cols.map fun q => " " ++ charOf q.1) ++ "|" ++
+      String.join ((List.range L.toNat).map fun j =>
+        toString j ++ String.join (cols.map fun q => " " ++ toString (q.2.getD j 0)) ++ "|")))
+  else
+    let cs0 := charStats rows
+    let cs := if all || cs0.any (·.1 == oc) then cs0 else
+      (cs0.filter (·.1 < oc)) ++ [(oc, 0)] ++ cs0.filter (fun p => !(p.1 < oc))
+    let keys := if all then cs else cs.filter (·.1 == oc)
+    if flag fl "--per-sequences" then
+      some (exact ("rc=0 out=seq" ++ String.join (keys.map fun k => " " ++ charOf k.1) ++ "|" ++
+        String.join (rows.map fun r =>
+          let m := countsBy toUpper r.2
+          r.1 ++ String.join (keys.map fun k => " " ++ toString ((lookup k.1 m).getD 0)) ++ "|")))
+    else
+      let total := (cs.map Prod.snd).foldl (· + ·) 0
+      let want := "char nb freq " ++ " ".intercalate (keys.map fun k => charOf k.1 ++ ":" ++ toString k.2 ++ "/" ++ toString total)
+      if !impl.startsWith "rc=0 out=" then some ⟨want, "fail:" ++ failCli⟩ else
+      let lines := ((impl.drop 9).toString.splitOn "|").filter (· != "")
+      let close (txt : String) (nb : Nat) : Bool :=
+        match DetOps.parseDec txt with
+        | some v => Float.abs (v - Float.ofNat nb / Float.ofNat total) ≤ 0.000001
+        | none => false
+      let okk := lines.length == keys.length + 1 && lines.headD "" == "char nb freq" && impl.endsWith "|" &&
+        ((lines.drop 1).zip keys).all fun (l, k) =>
+          match l.splitOn " " with
+          | [c, nb, f] => c == charOf k.1 && nb == toString k.2 && close f k.2
+          | _ => false
+      some ⟨if okk then impl else want, verdictOf okk "character-table-differs-from-library-model"⟩
+
+/-- `stats alleles`: `fmt.Println(AvgAllelesPerSite())`, the quotient of two counts (`NaN` when no site has an allele) -/
+def allelesVerdict (rows : Rows) (impl : String) : Option Ans := do
+  let L := lenOf rows
+  if L < 0 then none
+  let c := avgAllelesCounts rows L
+  let want := "alleles " ++ toString c.1 ++ "/" ++ toString c.2
+  if !impl.startsWith "rc=0 out=" then some ⟨want, "fail:" ++ failCli⟩ else
+  let okk := match (impl.drop 9).toString.splitOn "|" with
+    | [v, ""] =>
+      if c.2 == 0 then v == "NaN" else
+      (match DetOps.parseDec v with
+       | some x => let q := Float.ofNat c.1 / Float.ofNat c.2; Float.abs (x - q) ≤ 1e-12 * q
+       | none => false)
+    | _ => false
+  some ⟨if okk then impl else want, verdictOf okk "average-number-of-alleles-differs-from-library-model"⟩
+
 def handle : Handler := fun op args impl =>
   match op, args with
   | "cli_lib", stdin :: "compute" :: "entropy" :: fl =>
     match entropyVerdict (parseFasta (stdin.splitOn "|")) fl impl with
+    | some a => some a
+    | none => some ⟨"unmodelled", "na"⟩
+  | "cli_lib", stdin :: "stats" :: "char" :: fl =>
+    match charStatsVerdict (parseFasta (stdin.splitOn "|")) fl impl with
+    | some a => some a
+    | none => some ⟨"unmodelled", "na"⟩
+  | "cli_lib", [stdin, "stats", "alleles"] =>
+    match allelesVerdict (parseFasta (stdin.splitOn "|")) impl with
     | some a => some a
     | none => some ⟨"unmodelled", "na"⟩
   | "cli_lib", stdin :: argv =>
